@@ -11,6 +11,12 @@
      note{...}                  informational hook events (timers, upstream receive/reset, loop phases): no constraint
      cdone{rid, kind, status, extra, elapsed, bound, foreign}   driver: what the client observed on its connection
                                 (foreign: a proxy-made reply whose body holds the token of an upstream answer)
+     upseen{rid, data, trailers, sent, arrivals, blen, same, want}   driver, unguided request-shape runs (RequestShape.tla):
+                                what the scripted upstream saw of the request by the end of the run - `sent` attempts
+                                were given an upstream stream by the pool, `arrivals` complete requests reached the
+                                upstream, each with a body of `blen` bytes (`same`: all alike); `want` = the length of
+                                the body the proxy had to forward (-1: not judged here), `data` = the class of the body
+                                the forwarding phases worked on (absent | empty | bytes)
      quiesce{active, rq, pd, rt, ...}  driver: all gates released, timeout+slack elapsed; gauges and the clusters'
                                 circuit-breaker resources read (requests, pending, retries; summed over the clusters,
                                 relative to their values when the run began) *)
@@ -76,6 +82,16 @@ TCDone == /\ IsEvent("cdone")
           /\ Expect(~Ev.foreign, "local-reply-carries-upstream-body")   \* a reply the proxy made itself holds nothing of an (earlier) upstream answer
           /\ UNCHANGED vars
 
+(* the request was ENDED towards the upstream, whatever its shape (RequestForward!EndedOnce): every attempt that got an
+   upstream stream arrived there as a complete request - an upstream only sees a request that was ended -, and a body
+   of length zero arrived as no bytes, a body as its bytes *)
+TUpSeen == /\ IsEvent("upseen")
+           /\ Expect(Ev.sent = 0 \/ Ev.arrivals >= 1, "request-never-ended-towards-upstream")
+           /\ Expect(Ev.arrivals <= Ev.sent, "more-upstream-requests-than-attempts")
+           /\ Expect(Ev.arrivals = 0 \/ Ev.want < 0 \/ (Ev.same /\ Ev.blen = Ev.want), "upstream-body-differs-from-request-shape")
+           /\ Expect(Ev.arrivals = 0 \/ Ev.want < 0 \/ ((Ev.data = "bytes") <=> (Ev.blen > 0)), "upstream-body-differs-from-request-shape")
+           /\ UNCHANGED vars
+
 TQuiesce == /\ IsEvent("quiesce")
             /\ Expect(\A r \in Rids : st[r] # "open", "request-never-ended")
             /\ Expect(active = Cardinality({ r \in Rids : st[r] = "open" }), "ghost-gauge")
@@ -86,6 +102,6 @@ TQuiesce == /\ IsEvent("quiesce")
             /\ Expect((\E r \in Rids : st[r] = "open") \/ Ev.rt = 0, "retries-resource-not-returned")
             /\ UNCHANGED vars
 
-TraceNext == TRun \/ TNew \/ TAttempt \/ TReply \/ TClientReset \/ TTerminate \/ TClean \/ TNote \/ TCDone \/ TQuiesce
+TraceNext == TRun \/ TNew \/ TAttempt \/ TReply \/ TClientReset \/ TTerminate \/ TClean \/ TNote \/ TCDone \/ TUpSeen \/ TQuiesce
 TraceSpec == TraceInit /\ [][TraceNext]_tvars
 ====
